@@ -304,6 +304,14 @@ fn fn_templates() -> Vec<FnTemplate> {
         t1("keepeven", Sem::DropOdd, Both, RType::Int, RType::Int),
         t1("neg", Sem::BoolNot, Field, RType::Bool, RType::Bool),
         FnTemplate {
+            base: "nboth",
+            sem: Sem::BoolNot,
+            params: vec![(Field, RType::Bool), (Field, RType::Bool)],
+            opts: vec![],
+            ret: RType::Bool,
+        },
+        t1("lift", Sem::Lift, Field, RType::Bool, a(RType::Bool)),
+        FnTemplate {
             base: "glue",
             sem: Sem::Glue,
             params: vec![(Field, RType::Bytes), (Literal, RType::Bytes)],
